@@ -21,6 +21,10 @@ type kxWorld struct {
 	clears [2]bool
 	role   [2]string
 	last   [2]*inflight // the frame last delivered from lo / hi
+	// traffic a router sealed with keys it had just installed as the serving side of a setup (a server
+	// starts using its keys as soon as it has answered) and that is still under way: the last frame
+	// of the burst, to be delivered to the other router at the next quiescent point
+	stale [2][]byte
 }
 
 func newKxWorld(ids []*m.Address) (*kxWorld, error) {
@@ -113,6 +117,46 @@ func (k *kxWorld) traffic(x bool, n int) error {
 		}
 	}
 	return nil
+}
+
+// burst seals n traffic frames at x with its current session and returns the last one (the others
+// are lost on the way).
+func (k *kxWorld) burst(x bool, n int) []byte {
+	X, Y := k.node(x), k.node(!x)
+	sx := X.st.GetSession(Y.id.IP)
+	if sx == nil {
+		return nil
+	}
+	var last []byte
+	for i := 0; i < n; i++ {
+		f, err := X.builder.NewFrameV1(X.id.IP, Y.id.IP, frame.NetworkTraffic, nil, []byte("traffic sent right after serving a key setup"), nil)
+		if err != nil {
+			return last
+		}
+		if err := f.Seal(sx); err == nil {
+			d, _ := f.FrameDataWithMargins(0, 0)
+			last = append([]byte(nil), d...)
+		}
+		f.ReturnToPool()
+	}
+	return last
+}
+
+// straggler delivers the frame kept from x's last burst to the other router (whatever it makes of it).
+func (k *kxWorld) straggler(x bool) bool {
+	d := k.stale[b2i(x)]
+	k.stale[b2i(x)] = nil
+	Y := k.node(!x)
+	sy := Y.st.GetSession(k.node(x).id.IP)
+	if d == nil || sy == nil {
+		return false
+	}
+	pf, err := Y.builder.ParseFrame(d, nil, 0)
+	if err != nil {
+		return false
+	}
+	_ = pf.Unseal(sy)
+	return true
 }
 
 func (k *kxWorld) pcode(x bool) int {
@@ -242,6 +286,7 @@ func (k *kxWorld) apply(c *Ctx, e kxEv) (enabled bool, note string) {
 		if nowIn, _ := k.keysOf(!e.x); !bytes.Equal(nowIn, recvIn) {
 			if len(k.w.queue) == nq { // one frame consumed, one response produced
 				k.role[b2i(!e.x)] = "server"
+				k.stale[b2i(!e.x)] = k.burst(!e.x, 66+c.Rng.IntN(40))
 			} else {
 				k.role[b2i(!e.x)] = "client"
 			}
@@ -431,6 +476,14 @@ func runC14(c *Ctx) error {
 				nfr := 1
 				if c.Rng.IntN(3) == 0 {
 					nfr = 70
+				}
+				// stragglers of earlier bursts arrive first: frames the routers themselves sealed, with
+				// keys that may have been replaced since
+				for _, x := range []bool{true, false} {
+					if k.straggler(x) {
+						trace = append(trace, fmt.Sprintf("late-traffic-frame(from %v)", map[bool]string{true: "lo", false: "hi"}[x]))
+						c.Count("late-traffic-frame")
+					}
 				}
 				for _, x := range []bool{true, false} {
 					if err := k.traffic(x, nfr); err != nil {
